@@ -79,6 +79,9 @@ AlphaCapture == {I1("EVar", 0), I1("SVar", 0), I1("SVar", 1), I0("Prop1"), I0("E
 AlphaQuick == AlphaCapture \cup {I1("EVar", 1), I0("Implies"), I1("Exists", 0), I1("Mu", 0),
                                  I1("CleanMetaVar", 0), I0("Prop3"), I0("Quantifier"), IInst(<<0>>),
                                  I1("ESubst", 0), I1("SSubst", 0)}
+\* deriving consequences of a published axiom: Load it, build operands, Prop1/MP
+AlphaTheory == {I1("Load", 0), I1("Symbol", 0), I1("Symbol", 1), I0("Implies"), I0("Prop1"), I0("ModusPonens"),
+                IInst(<<0, 1>>), IInst(<<0>>), I1("Generalization", 0), I1("Substitution", 0), I1("EVar", 0), I1("SVar", 0), I0("Pop")}
 GammaEmpty == {}
 GammaSmall == {Imp(Sym(0), Sym(1))}
 =============================================================================
